@@ -35,16 +35,31 @@ def run_group(cs, layout=None):
         for k, g in it:
             groups.append({'key': [_cn(P.enc(k))], 'label': P.enc(k), 'members': [pos[json.dumps(l)] for l in P.labels_of(g.index)], 'sub': P.proj(g)})
     else:
-        f = P.build_frame(cs['f'], layout)
+        grow = bool(cs.get('grow'))
+        f = P.build_frame(cs['f'], layout, cls=sf.FrameGO if grow else None)
         axis = cs['axis']
         by = cs['by']
+
+        def enrich(items):
+            '''the per-group enrichment loop on a grow-only source: every group handed out is snapshotted, then (when it is itself
+            grow-only) given a new column while the iteration is still running; neither the source nor any other group may see that'''
+            before = P.proj_frame(f)
+            out = []
+            for k, g in items:
+                snap = g.to_frame() if isinstance(g, sf.FrameGO) else g
+                out.append((k, snap))
+                if isinstance(g, sf.FrameGO):
+                    g['__grown__'] = np.zeros(len(g.index), dtype=np.int64)
+            if P.proj_frame(f) != before:
+                raise AssertionError('the source changed while its groups were grown')
+            return out
         if by[0] == 'cols':
             key = [P.dec(x) for x in by[1]]
             key = key if len(key) > 1 else key[0]
-            it = list(f.iter_group_items(key, axis=axis))
+            it = enrich(f.iter_group_items(key, axis=axis)) if grow else list(f.iter_group_items(key, axis=axis))
             applied = f.iter_group(key, axis=axis).apply(lambda g: g.shape[axis])
         else:
-            it = list(f.iter_group_labels_items(by[1], axis=axis))
+            it = enrich(f.iter_group_labels_items(by[1], axis=axis)) if grow else list(f.iter_group_labels_items(by[1], axis=axis))
             applied = f.iter_group_labels(by[1], axis=axis).apply(lambda g: g.shape[axis])
         src_labels = cs['f']['index'] if axis == 0 else cs['f']['columns']
         pos = _pos(src_labels)
@@ -119,13 +134,13 @@ def gen_group(rng):
     r = rng.random()
     if r < 0.65 or n == 0:
         nk = rng.choice([1, 1, 2]) if nc >= 2 else 1
-        return {'op': 'group', 'kind': 'frame', 'f': f, 'axis': 0, 'by': ['cols', rng.sample(f['columns'], nk)]}, C.rand_layout(rng, f)
+        return {'op': 'group', 'kind': 'frame', 'f': f, 'axis': 0, 'by': ['cols', rng.sample(f['columns'], nk)], 'grow': rng.random() < 0.3}, C.rand_layout(rng, f)
     if r < 0.8:
         idx = C.rand_labels(rng, n, 'tuple')
         f['index'] = idx
         for c in f['cols']:
             c['vals'] = c['vals'][:len(idx)]
-        return {'op': 'group', 'kind': 'frame', 'f': f, 'axis': 0, 'by': ['depth', rng.choice([0, 1])]}, C.rand_layout(rng, f)
+        return {'op': 'group', 'kind': 'frame', 'f': f, 'axis': 0, 'by': ['depth', rng.choice([0, 1])], 'grow': rng.random() < 0.5}, C.rand_layout(rng, f)
     # axis 1: group columns by the values of a row (homogeneous frame)
     nc = rng.choice([2, 3, 5, 9])
     cols = [{'dt': ['i', 64], 'vals': [['i', rng.randrange(2)] for _ in range(2)]} for _ in range(nc)]
